@@ -398,6 +398,56 @@ pub fn run_case(ctx: &mut CaseCtx) -> CaseResult {
                     );
                 }
             }
+            // the same text through the RUST_LOG entry points (process environment: cases of a
+            // shard run one after the other and C17 starts no threads)
+            if matches!(r.class, Class::Specified)
+                && res.verdict == Verdict::Held
+                && ctx.case % 16 == 2
+                && !s.contains('\0')
+            {
+                let model = MSpec { entries: r.entries.clone(), text: None };
+                let warn_only = MSpec { entries: vec![(None, LevelFilter::Warn)], text: None };
+                let nothing = MSpec { entries: vec![], text: None };
+                let targets = spec::grid_targets(&[&model]);
+                std::env::set_var("RUST_LOG", &s);
+                let via_env = LogSpecification::env();
+                let via_env_or = LogSpecification::env_or_parse("warn");
+                std::env::remove_var("RUST_LOG");
+                let unset_env = LogSpecification::env();
+                let unset_env_or = LogSpecification::env_or_parse(&s);
+                res.count("env_forms_checked", 1);
+                let mut check = |what: &str, got: Result<LogSpecification, FlexiLoggerError>, want_ok: bool, want: &MSpec| {
+                    let (is_ok, sp) = match got {
+                        Ok(sp) => (true, Some(sp)),
+                        Err(FlexiLoggerError::Parse(_, sp)) => (false, Some(sp)),
+                        Err(_) => (false, None),
+                    };
+                    if is_ok != want_ok {
+                        res.violate(
+                            "env-form-differs",
+                            format!("C17/env-form/{what}/ok-err-differs"),
+                            format!("RUST_LOG={s:?}: {what} returned {}, expected {}", if is_ok { "Ok" } else { "Err" }, if want_ok { "Ok" } else { "Err" }),
+                        );
+                    } else if let Some(sp) = sp {
+                        if let Err(d) = decide_equal(&sp, want, &targets) {
+                            res.violate(
+                                "env-form-differs",
+                                format!("C17/env-form/{what}/spec-differs"),
+                                format!("RUST_LOG={s:?}: {what}: {d}"),
+                            );
+                        }
+                    }
+                };
+                check("env()", via_env, r.ok, &model);
+                // env_or_parse: the variable if it parses, else the given string
+                if r.ok {
+                    check("env_or_parse(set)", via_env_or, true, &model);
+                } else {
+                    check("env_or_parse(set,malformed)", via_env_or, true, &warn_only);
+                }
+                check("env()-unset", unset_env, true, &nothing);
+                check("env_or_parse(unset)", unset_env_or, r.ok, &model);
+            }
             if ctx.case < 8 || res.verdict != Verdict::Held {
                 res.sample = Some(json!({"input": s, "reference": format!("{r:?}")}));
             }
